@@ -6,7 +6,7 @@ and found by a final single-threaded drain) - never lost, never duplicated; mess
 publication order; the subscription only yields channels matching its pattern.
 Bound: 4 scenarios (2 publishers on one not-yet-existing channel / existing channel / matching + non-matching channel /
 2 publishers + wildcard over two channels), 1 subscriber draining twice, preemption bound 2 (thorough 3), at most 600 (thorough
-12000) schedules per scenario, fewest preemptions first."""
+6000) schedules per scenario, fewest preemptions first."""
 import json, sys, threading, time, logging
 logging.disable(logging.CRITICAL)
 from semantiva.execution.transport.in_memory import InMemorySemantivaTransport
@@ -227,11 +227,11 @@ only = req.get("scenario")
 for name, (make, check) in SCENARIOS.items():
     if only and name != only:
         continue
-    explore(name, make, check, 3 if thorough else 2, 12000 if thorough else 600)
+    explore(name, make, check, 3 if thorough else 2, 6000 if thorough else 600)
     if len(samples) < 2:
         samples.append({"scenario": name, "schedules_so_far": evaluations})
 
-print(json.dumps({"bound": "4 scenarios x schedules at line granularity of in_memory.py (incl. the defaultdict factory), preemption bound %d, <= %d schedules per scenario, subscriber drains twice + final drain" % (3 if thorough else 2, 12000 if thorough else 600),
+print(json.dumps({"bound": "4 scenarios x schedules at line granularity of in_memory.py (incl. the defaultdict factory), preemption bound %d, <= %d schedules per scenario, subscriber drains twice + final drain" % (3 if thorough else 2, 6000 if thorough else 600),
                   "evaluations": evaluations, "distinct_nontrivial": len(distinct),
                   "rule": "distinct = (scenario, schedule as the sequence of thread choices at traced lines)",
                   "failures": failures[:20], "samples": samples}, default=str))
